@@ -188,21 +188,21 @@ impl<'a> Tokenizer<'a> {
         let (n, len) = match radix {
             b'H' | b'h' => {
                 const FORMAT: u128 = lexical_core::NumberFormatBuilder::from_radix(16);
-                lexical_core::parse_partial_with_options::<u64, FORMAT>(
+                lexical_core::parse_partial_with_options::<u128, FORMAT>(
                     self.chars.as_slice(),
                     &options,
                 )
             }
             b'Q' | b'q' => {
                 const FORMAT: u128 = lexical_core::NumberFormatBuilder::from_radix(8);
-                lexical_core::parse_partial_with_options::<u64, FORMAT>(
+                lexical_core::parse_partial_with_options::<u128, FORMAT>(
                     self.chars.as_slice(),
                     &options,
                 )
             }
             b'B' | b'b' => {
                 const FORMAT: u128 = lexical_core::NumberFormatBuilder::from_radix(2);
-                lexical_core::parse_partial_with_options::<u64, FORMAT>(
+                lexical_core::parse_partial_with_options::<u128, FORMAT>(
                     self.chars.as_slice(),
                     &options,
                 )
@@ -216,6 +216,8 @@ impl<'a> Tokenizer<'a> {
             }
             _ => ErrorCode::NumericDataError,
         })?;
+        // Parsed as u128 and narrowed: lexical-core (0.8) misses the u64 overflow of a 22 digit octal
+        let n = u64::try_from(n).map_err(|_| ErrorCode::DataOutOfRange)?;
         if len > 0 {
             self.chars.nth(len - 1).unwrap();
             let ret = Token::NonDecimalNumericProgramData(n);
